@@ -303,6 +303,23 @@ func genC08(t *rapid.T) (*DCase, map[string]bool) {
 			}
 		}
 	}
+	if g.b("shadowing") {
+		// parameters named like globals, used and assigned inside match case bodies of the
+		// callee: the parameter is what the case body sees, and the global keeps its value
+		items = append(items, ast.Func("shadow", []string{"g1", "sc"}, ast.Block(
+			ast.Print(ast.Str("shadow:in"), ast.Id("g1"), ast.Id("sc")),
+			ast.ExprS(ast.Set(ast.Id("shx"), ast.Match(ast.Id("g1"), ast.Case(ast.Arr(ast.Id("g1"), ast.Id("sc"), ast.Id("shk")), ast.Id("shk"))))),
+			ast.ExprS(ast.Match(ast.Id("sc"), ast.Case(ast.Block(
+				ast.ExprS(ast.Set(ast.Id("g1"), ast.Str("changed-in-case"))),
+				ast.ExprS(ast.Set(ast.Id("sc"), ast.Bin("+", ast.Id("sc"), ast.Id("shk")))),
+				ast.ExprS(ast.Match(ast.Num("1"), ast.Case(ast.Block(ast.ExprS(ast.Set(ast.Id("sc"), ast.Bin("+", ast.Id("sc"), ast.Num("1000"))))), ast.Id("shj")))),
+			), ast.Id("shk")))),
+			ast.Print(ast.Str("shadow:out"), ast.Id("g1"), ast.Id("sc"), ast.Id("shx")),
+			ast.Return(ast.Id("g1")))))
+		stmts = append(stmts, set("rsh", ast.Call(ast.Id("shadow"), ast.Str("param"), ast.Num("5"))), ast.Print(ast.Str("RSH"), ast.Id("rsh")))
+		probe()
+		g.labels["parameter-shadows-global-in-case-body"] = true
+	}
 	ncalls := g.n(1, 4, "ncalls")
 	for k := 0; k < ncalls; k++ {
 		r := fmt.Sprintf("r%d", k)
@@ -478,7 +495,7 @@ func c08HistCheck(h *C08Hist) string {
 
 func TestC08(t *testing.T) {
 	rec := start(t, "C08", "exploration",
-		"(a) programs with 1-4 user functions of arity 0-4 (parameters reassigned, locals created, globals assigned, nested calls, controlled recursion, returns from loops and match blocks, match bindings), called from every expression position with argument counts below / at / above arity; after every call the caller prints the globals and `is unknown` of every name a callee touched; expected output from refjq (DESIGN.md 4.2). (b) histories: a stateless per-element construct (call, match with expression body, match with block body, return inside a match block, next inside a function, break/continue in match blocks, nested) over N in {1,2,100,4095,4096,4097,5000,20000} elements, or N iterations inside one rule, followed by a recursion of depth 1000: the output must be the one-element output N times. Non-trivial: (a) callee names probed, argc != arity, or recursion; (b) N > 4096. distinct = distinct program+input.")
+		"(a) programs with 1-4 user functions of arity 0-4 (parameters reassigned, locals created, globals assigned, nested calls, controlled recursion, returns from loops and match blocks, match bindings), called from every expression position with argument counts below / at / above arity; after every call the caller prints the globals and `is unknown` of every name a callee touched; expected output from refjq (DESIGN.md 4.2). (b) histories: a stateless per-element construct (call, match with expression body, match with block body, return inside a match block, next inside a function, break/continue in match blocks, nested) over N in {1,2,100,4095,4096,4097,5000,20000,65535,65537,70000} elements, or N iterations inside one rule, followed by a recursion of depth 1000: the output must be the one-element output N times. Non-trivial: (a) callee names probed, argc != arity, or recursion; (b) N > 4096. distinct = distinct program+input.")
 	defer rec.Finish()
 	rec.Assume("refjq's frame model (DESIGN.md 4.2); reads of names that exist only in a caller's frame are unspecified and not generated")
 	rec.Replayer("calls", replayDiff(false))
@@ -501,7 +518,7 @@ func TestC08(t *testing.T) {
 	shard, nshards := ev.Shard()
 	count := 0
 	for construct := range c08Constructs {
-		for _, n := range []int{1, 2, 100, 4095, 4096, 4097, 5000, 20000} {
+		for _, n := range []int{1, 2, 100, 4095, 4096, 4097, 5000, 20000, 65535, 65537, 70000} {
 			for _, inLoop := range []bool{false, true} {
 				count++
 				if count%nshards != shard || rec.ViolationCount() >= 6 {
@@ -521,7 +538,7 @@ func TestC08(t *testing.T) {
 			}
 		}
 	}
-	rec.Exhaustive("(b) 8 constructs x N in {1,2,100,4095,4096,4097,5000,20000} x {elements, loop iterations}")
+	rec.Exhaustive("(b) 8 constructs x N in {1,2,100,4095,4096,4097,5000,20000,65535,65537,70000} x {elements, loop iterations}")
 
 	// the one-element unit of each construct against refjq (text programs are
 	// parsed by nobody here: the unit is rebuilt as an AST in genC08's style, so
